@@ -183,7 +183,7 @@ def arc_walk_check(orig, top):
 # sorted order differs from their position, name-generator indices crossing from one to two digits)
 
 C_NAME_POOL = ["b1", "m_block_2", "z1", "loop_region_0"]
-C_TYPES = ["SyntheticHead", "SyntheticExitBranch", "SyntheticBranch"]
+C_TYPES = ["SyntheticHead", "SyntheticExitBranch", "SyntheticBranch", "SyntheticExitingLatch"]  # the latch also holds a declared back edge
 C_FEEDERS = [
     ["asg{v}", "asg{v}", "asg{v}"],
     ["synth_asign_block_9", "synth_asign_block_10", "synth_asign_block_11"],
@@ -210,7 +210,13 @@ def build_c(desc):
             nxt = asg[vals[j + 1]] if j == len(vals) - 2 else f"e{j + 1}"
             blocks[f"e{j}"] = bb.BasicBlock(f"e{j}", (asg[v], nxt))
         blocks[asg[v]] = bb.SyntheticAssignment(asg[v], ("X",), (), {var: v})
-    blocks["X"] = getattr(bb, desc["type"])("X", tuple(T), (), var, dict(table))
+    if desc["type"] == "SyntheticExitingLatch":
+        # one more target: the loop header `hd`, a declared back edge selected by one more value
+        table[max(table) + 1] = "hd"
+        blocks["hd"] = bb.BasicBlock("hd", ("e0",) if "e0" in blocks else (asg[vals[0]],))
+        blocks["X"] = bb.SyntheticExitingLatch("X", tuple(T) + ("hd",), ("hd",), var, dict(table))
+    else:
+        blocks["X"] = getattr(bb, desc["type"])("X", tuple(T), (), var, dict(table))
     for t in T:
         blocks[t] = bb.BasicBlock(t, ())
     c = desc.get("counter_start") or 0
